@@ -2,7 +2,7 @@
    Model: Model/Mempool.v ([legacy = false] = the code as it is, after the repairs R11a, R11b, R11c, R12; [legacy = true] =
    the code before them; both variants were compared with the corresponding Go build on the same scenarios). *)
 From Virel Require Import Lib.Config Lib.U64 Lib.AMap Model.Emission Model.Ledger Model.Node Model.Mempool
-  Proofs.Conservation Proofs.Mempool Gen.Params.
+  Proofs.Emission Proofs.Conservation Proofs.StakedSum Proofs.Mempool Proofs.Mempool2 Proofs.Mempool3 Proofs.Mempool4 Proofs.Mempool5 Proofs.Mempool6 Gen.Params.
 Open Scope N_scope.
 
 (* ---- the full statement ---- *)
@@ -26,7 +26,8 @@ Print Assumptions C09_full_refuted.
    difficulty = parent's + b's own contribution (side blocks and signature included); no merge-mining duplicates; the
    published lottery result is GetStaker of the current ledger.
    NOT covered by this theorem (correspondence run only): the side-block clauses of checkBlock for the chosen tips, the
-   stake signature clause, the future-time limit (a premise about the miner's clock), proof of work (the miner's part). *)
+   stake signature clause, the future-time limit (a premise about the miner's clock), proof of work (the miner's part).
+   The transaction list of the template: C09_template_txs_ok below. *)
 Theorem C09_template_header_ok : forall cfg legacy w rcpt now now_s t w' b,
   tip_inv w -> get_block_template cfg legacy w rcpt now now_s = Ok (t, w') -> completes t b ->
   exists prev,
@@ -52,12 +53,113 @@ Proof. exact template_entitlement_ok. Qed.
 Print Assumptions C09_template_entitlement_ok.
 
 (* ---- PROVED PART 2: the mempool's second implementation of the transaction rules ---- *)
-(* the full promise of the simulation ([simulation_sound_stmt false]) is NOT proved; proved is the case of an empty list
-   of earlier entries, for all five kinds of transaction: what validateMempoolTx accepts, ApplyTxToState applies.
-   Hypotheses: version byte matches the payload; amounts are uint64 values; virtual size within MAX_TX_SIZE
-   (Prevalidate); no delegate 0; the staked total is a uint64 value bounding every fund of the signer; a stake does not
-   push it over 2^64.  Earlier entries (several signers interleaved, all kinds) are covered by the correspondence run. *)
-Theorem C09_simulation_sound_single_partial : forall cfg, cfg_ok_c09 cfg = true -> forall l store t h bh,
+(* The promise of the simulation ([simulation_sound_stmt false]: what validateMempoolTx accepts for t after the entries of
+   the transactions ts, simulated on private copies starting from the ledger l, is applied by ApplyTxToState on the ledger
+   l1 reached by really applying ts to l) is PROVED for earlier entries of ALL five kinds - transfer, register delegate,
+   set delegate, stake, unstake - by any signers, interleaved in any order, under these hypotheses:
+     height: 0 < h < 2^64 (h = tip height + 1);
+     earlier transactions ([tx_good]): version byte names the payload, amounts are uint64 values, the total exists
+       (Prevalidate and validateMempoolTx check it), no registration of delegate id 0 (Prevalidate); distinct ids;
+     ledger l ([linv]): the staked-sum invariant SInv (order, filing, staked = sum of funds < 2^64: kept by every ledger
+       operation, Proofs/StakedSum.v), no owner with two funds in one pool (the ledger appends a fund only when the owner
+       has none), no delegate 0; staked total + sum of all balances < 2^64;
+     t: version byte names the payload, uint64 amounts, virtual size within MAX_TX_SIZE.
+   The invariant between the simulation and the real ledger (Proofs/Mempool2.v, Mempool3.v): tracked account states are
+   equal; every pool the simulation knows (its own copy, else the record of l) has, owner by owner, the real fund's amount
+   and unlock height, and a simulated fund without a real one is an emptied fund (the simulation keeps a fund emptied by a
+   pending unstake, the ledger drops it); a pool exists in the one exactly when it exists in the other.  That a pending
+   stake cannot push the staked total over 2^64 follows from "staked total + balances at key addresses never grows"
+   (Proofs/MempoolPot.v).  No refutation was found: the model of the code as it is (after R11a-c) satisfies the promise. *)
+Theorem C09_simulation_sound : forall cfg, cfg_ok_c09 cfg = true -> forall l ts es t h l1,
+  0 < h < two64 -> Forall (tx_good cfg) ts -> NoDup (map tx_id ts) ->
+  entries_of cfg ts = Ok es -> apply_all cfg l ts h = Ok l1 ->
+  linv l -> staked l + total_bal l < two64 ->
+  tx_typed t -> wf_tx cfg t -> tx_vsize cfg t <= max_tx_size cfg ->
+  validate_mempool_tx cfg false l (store_of ts) t es h = Ok tt ->
+  exists l2, apply_tx cfg l1 t h 0 (h - 1) = Ok l2.
+Proof. exact simulation_sound_all_kinds. Qed.
+Print Assumptions C09_simulation_sound.
+
+(* the same for any transaction store that returns each earlier transaction under its id (the Tx index holds many more)
+   and entries with any expiry times ([entry_rel t e]: e is the MempoolEntry made from t) *)
+Theorem C09_simulation_sound_general : forall cfg, cfg_ok_c09 cfg = true -> forall l store ts es t h l1,
+  0 < h < two64 -> Forall (tx_good cfg) ts -> (forall t', In t' ts -> nget store (tx_id t') = Some t') ->
+  Forall2 (entry_rel cfg) ts es -> apply_all cfg l ts h = Ok l1 ->
+  linv l -> staked l + total_bal l < two64 ->
+  tx_typed t -> wf_tx cfg t -> tx_vsize cfg t <= max_tx_size cfg ->
+  validate_mempool_tx cfg false l store t es h = Ok tt ->
+  exists l2, apply_tx cfg l1 t h 0 (h - 1) = Ok l2.
+Proof. exact simulation_sound_general. Qed.
+Print Assumptions C09_simulation_sound_general.
+
+(* the transaction list of EVERY template passes the transaction loop of ApplyBlockToState on the node's ledger at the
+   template's height, whatever the block hash will be: every chosen entry was validated against the entries chosen before
+   it, so the list is applicable in order (induction with the theorem above); the fee counter cannot wrap.
+   [mp_inv]: every pending entry whose transaction is in the Tx index was made from that transaction, and that
+   transaction is [tx_adm] (= [tx_good] and size within the limit: what Prevalidate checks, lemma below). *)
+Theorem C09_template_txs_ok : forall cfg, cfg_ok_c09 cfg = true -> forall w rcpt now now_s t w' bh,
+  get_block_template cfg false w rcpt now now_s = Ok (t, w') ->
+  top_h (wn w) + 1 < two64 -> mp_inv cfg w ->
+  linv (ldg (wn w)) -> staked (ldg (wn w)) + total_bal (ldg (wn w)) < two64 ->
+  exists l1 fee, apply_txs cfg (ldg (wn w)) (b_txs t) (b_height t) bh (top_h (wn w)) 0 = Ok (l1, fee).
+Proof. exact template_txs_applicable. Qed.
+Print Assumptions C09_template_txs_ok.
+
+(* [tx_adm] is what Prevalidate establishes of a decoded transaction; [mp_inv] is kept by every TX packet *)
+Theorem C09_mempool_invariant : forall cfg,
+  (forall tk t h, tx_typed t -> wf_tx cfg t -> prevalidate_tx cfg tk t h = Ok tt -> tx_adm cfg t) /\
+  (forall tk w t now_s expires w' adm, tx_typed t -> wf_tx cfg t -> mp_inv cfg w ->
+     packet_tx cfg tk false w t now_s expires = Ok (w', adm) -> mp_inv cfg w').
+Proof. intros cfg. exact (conj (prevalidate_adm cfg) (packet_tx_mp_inv cfg)). Qed.
+Print Assumptions C09_mempool_invariant.
+
+(* the ledger hypothesis [linv] holds of the empty ledger and is kept by ApplyTxToState and by ApplyBlockToState (staker
+   rewards included) as long as no transaction registers delegate 0; the undo direction is not treated *)
+Theorem C09_linv_kept : forall cfg ga, cfg_ok_emission cfg = true ->
+  linv ledger0 /\
+  (forall l t h bh th l', linv l -> tx_good cfg t -> apply_tx cfg l t h bh th = Ok l' -> linv l') /\
+  (forall l b th l', total_bal l + reward cfg (lb_height b) <= max_supply cfg -> Forall (tx_good cfg) (lb_txs b) ->
+     linv l -> apply_block cfg ga l b th = Ok l' -> linv l').
+Proof. intros cfg ga Hok. exact (conj linv0 (conj (apply_tx_linv cfg) (apply_block_linv cfg ga Hok))). Qed.
+Print Assumptions C09_linv_kept.
+
+(* non-vacuity: all hypotheses of C09_simulation_sound hold together on a scenario with earlier entries of all five kinds
+   by two signers (register, set delegate, stake by key 2; unstake, transfer to three recipients, restake by key 1; then
+   a second stake of key 2 naming the unlock height its own pending stake will write) *)
+Theorem C09_simulation_sound_nonvacuous :
+  exists es l1,
+    0 < 10 < two64 /\ Forall (tx_good cfg_verifnet) k_ts /\ NoDup (map tx_id k_ts) /\
+    entries_of cfg_verifnet k_ts = Ok es /\ apply_all cfg_verifnet (wit_ledger 2 0) k_ts 10 = Ok l1 /\
+    linv (wit_ledger 2 0) /\ staked (wit_ledger 2 0) + total_bal (wit_ledger 2 0) < two64 /\
+    tx_typed k_t /\ wf_tx cfg_verifnet k_t /\ tx_vsize cfg_verifnet k_t <= max_tx_size cfg_verifnet /\
+    validate_mempool_tx cfg_verifnet false (wit_ledger 2 0) (store_of k_ts) k_t es 10 = Ok tt /\
+    exists l2, apply_tx cfg_verifnet l1 k_t 10 0 (10 - 1) = Ok l2.
+Proof. exact all_kinds_nonvacuous. Qed.
+Print Assumptions C09_simulation_sound_nonvacuous.
+
+(* STILL NOT PROVED (correspondence run only): that [linv] and [mp_inv] hold in every reachable state of the wrapped node
+   ([linv] is proved to be kept by block application, not by block removal; [mp_inv] is proved for TX packets only, not
+   for the re-adding of transactions by RemoveBlockFromState); the side-block, stake-signature and coinbase clauses for
+   a completed template; C09_full itself is refuted (above).
+   OBSERVATION, outside the property (which asks for soundness only): the simulation is not complete.  While an unstake
+   that empties a fund is pending, validateMempoolTx refuses a change of delegate (925) and a stake naming another
+   prev_unlock than the emptied fund's (916) of the same signer, which the ledger would apply after the unstake: the
+   simulated pool keeps the emptied fund, the ledger drops it.  Harmless false refusals (the transactions pass once the
+   unstake is mined). *)
+Theorem C09_simulation_not_complete :
+  exists es l1, entries_of cfg_verifnet [g_unst] = Ok es /\ apply_all cfg_verifnet (wit_ledger 2 0) [g_unst] 10 = Ok l1 /\
+    validate_mempool_tx cfg_verifnet false (wit_ledger 2 0) (store_of [g_unst]) g_setd es 10 = Err 925 /\
+    (exists l2, apply_tx cfg_verifnet l1 g_setd 10 0 (10 - 1) = Ok l2) /\
+    validate_mempool_tx cfg_verifnet false (wit_ledger 2 0) (store_of [g_unst]) (g_stake 0) es 10 = Err 916 /\
+    (exists l2, apply_tx cfg_verifnet l1 (g_stake 0) 10 0 (10 - 1) = Ok l2) /\
+    validate_mempool_tx cfg_verifnet false (wit_ledger 2 0) (store_of [g_unst]) (g_stake 7) es 10 = Ok tt /\
+    (exists l2, apply_tx cfg_verifnet l1 (g_stake 7) 10 0 (10 - 1) = Ok l2).
+Proof. exact simulation_not_complete. Qed.
+Print Assumptions C09_simulation_not_complete.
+
+(* earlier results, now special cases (with weaker hypotheses on the ledger: no [linv], no bound on the height):
+   no earlier entries ... *)
+Theorem C09_simulation_sound_single : forall cfg, cfg_ok_c09 cfg = true -> forall l store t h bh,
   tx_typed t -> wf_tx cfg t -> tx_vsize cfg t <= max_tx_size cfg ->
   get_dlg l 0 = None -> staked l < two64 ->
   (forall id d f, get_dlg l id = Some d -> find_fund (d_funds d) (addr_of_key (tx_signer t)) = Some f -> f_amt f <= staked l) ->
@@ -65,12 +167,10 @@ Theorem C09_simulation_sound_single_partial : forall cfg, cfg_ok_c09 cfg = true 
   validate_mempool_tx cfg false l store t [] h = Ok tt ->
   exists l', apply_tx cfg l t h bh (h - 1) = Ok l'.
 Proof. exact simulation_sound_single. Qed.
-Print Assumptions C09_simulation_sound_single_partial.
+Print Assumptions C09_simulation_sound_single.
 
-(* ... and after earlier entries that are plain transfers (any signers, any recipients, any number): the ledger [l1]
-   reached by applying those transfers accepts what the simulation, started from [l], accepts.  Additional hypothesis:
-   the sum of all balances is a uint64 value.  Earlier entries of the other four kinds: correspondence run only. *)
-Theorem C09_simulation_sound_transfers_partial : forall cfg, cfg_ok_c09 cfg = true -> forall l ts es t h l1,
+(* ... and earlier entries that are plain transfers *)
+Theorem C09_simulation_sound_transfers : forall cfg, cfg_ok_c09 cfg = true -> forall l ts es t h l1,
   Forall (is_transfer cfg) ts -> entries_of cfg ts = Ok es -> apply_all cfg l ts h = Ok l1 ->
   total_bal l < two64 ->
   tx_typed t -> wf_tx cfg t -> tx_vsize cfg t <= max_tx_size cfg ->
@@ -80,7 +180,7 @@ Theorem C09_simulation_sound_transfers_partial : forall cfg, cfg_ok_c09 cfg = tr
   validate_mempool_tx cfg false l (store_of ts) t es h = Ok tt ->
   exists l2, apply_tx cfg l1 t h 0 (h - 1) = Ok l2.
 Proof. exact simulation_sound_transfers. Qed.
-Print Assumptions C09_simulation_sound_transfers_partial.
+Print Assumptions C09_simulation_sound_transfers.
 
 (* ---- PROVED PART 3: mempool maintenance (the list operations of the model) ---- *)
 (* transactions of a connected block leave the mempool (ids in the mempool are distinct); transactions of a disconnected
